@@ -3,6 +3,12 @@
 import json, os, glob
 HERE = os.path.dirname(os.path.dirname(os.path.abspath(__file__)))
 CHECKS = {
+ "C01": dict(cat="exploration", tech="bounded-exhaustive enumeration of rules x backend configurations on the real converter; emitted query decoded by a target-language parser and compared with a reference formula by exhaustive truth table",
+             text="Three completely enumerated sub-products: condition trees x precedence/parenthesize/token/NOT-mode configurations; detection shapes x contexts x in-list knobs x precedence; value kinds x contexts x subsets of optional templates. Every query is parsed back with the configuration's own grammar and must be truth-table equivalent (all 2^n assignments) to the reference formula of the rule dict.",
+             note="reference semantics (mc/refsigma, mc/refrule) and decoder (mc/qparse) are trusted and self-tested; full product of the three sub-products not claimed", ref="§3 C01"),
+ "C03": dict(cat="exploration", tech="prefix-tree enumeration of all modifier chains up to depth 3-4 x value space on the real SigmaDetectionItem.from_mapping against a three-valued reference model",
+             text="All chains over the full 33-entry modifier table up to the depth bound for every value of the bounded value space; result projected to (values, linking, negated) or exception class; compared with accept/reject/unspecified reference. Pruning only below prefixes rejected by both sides.",
+             note="reference modifier semantics in mc/refsigma.py; unspecified combinations only require 'value or SigmaError'", ref="§3 C03"),
  "C02": dict(cat="exploration", tech="bounded-exhaustive enumeration of condition trees x spellings x detection-name sets on the real parser, truth-table comparison with the generating tree",
              text="All condition trees up to the operator bound over plain names, over a pool of keyword-like names and over selector leaves (quantifier x pattern) for several detection-name sets, each in up to four spellings; SigmaCondition(...).parsed is evaluated under all 2^n assignments and compared with the generating tree (the printer is the reference, no second parser).",
              note="detections are opaque atoms; zero-match selectors not judged; expressions beyond the bound not explored", ref="§3 C02"),
